@@ -280,10 +280,12 @@ def changed_sources(prop):
 
 
 BOOST = []
+LAST_CTX = []   # the context of the harness run in progress (what it had found is kept when the run stops half-way)
 
 
 def run_harness(mod, prop, tier, seed, driver_ok, search):
     ctx = Ctx(prop, tier, seed, driver_ok, search, boost=bool(BOOST) or bool(STALE))
+    LAST_CTX[:] = [ctx]
     mod.run(ctx)
     return ctx
 
@@ -329,10 +331,17 @@ def main():
         return 2
     try:
         ctx = run_harness(mod, prop, args.tier, seed, driver_ok, search=False)
-    except Exception:
+    except Exception as e:  # noqa: BLE001
         traceback.print_exc()
-        print("check: harness crashed")
-        return 2
+        if not (BOOST or STALE or broken):
+            print("check: harness crashed")
+            return 2
+        # the harness stopped on code that differs from the recorded fingerprint (an unexpected value, type or attribute): the correspondence
+        # with the changed source could not be established - that is a broken tie (answered by the search below), not a verdict of its own
+        tb = traceback.extract_tb(e.__traceback__)[-1]
+        broken.append({"kind": "correspondence", "what": f"the harness could not complete against the changed source: {type(e).__name__}: {str(e)[:200]} "
+                                                         f"({os.path.basename(tb.filename)}:{tb.lineno})", "detail": traceback.format_exc()[-1500:]})
+        ctx = LAST_CTX[0] if LAST_CTX else Ctx(prop, args.tier, seed, driver_ok, False, boost=True)
     for d in ctx.disagreements:
         broken.append({"kind": "correspondence", "what": d["what"], "detail": d["replay"]})
     searched = False
